@@ -22,6 +22,7 @@ CREDS = [
     ("user", "auth=Bearer x\x01", ""),
     ("user", "pass", "user"),  # authorisation id given and equal to the login: still an authorisation id
     ("alice@ref", "pw", ""), ("bob@other.example", "pw", "carol@ref"),
+    ("user%example.com", "100%", "%s"), ("50%%off", "%(pw)s", "{0}{}"),  # characters of the formatting mini-languages are characters
     ("\ufeffuser", "\ufeffpw", "\ufeffz"),  # a leading U+FEFF is a character of the credential, not a signature  # logins / authzids ending in "@" + the realm a DIGEST-MD5 challenge offers
 ]
 
